@@ -376,6 +376,10 @@ func (run *c17Run) checkImage(spec imageSpec, cache *pebble.Cache) (res imageRes
 	switch {
 	case !have:
 		res.classes = append(res.classes, "open:empty")
+		// nothing is retained: the store is not more than 95% full, whatever the record said before the open
+		if !isMax {
+			return fail("the reopened store holds no item (record %d, %d bytes before the open) but Radius() is %x, not the maximum: every put will be refused", post.Rec, pre.Held, rad)
+		}
 	case below == 4:
 		res.classes = append(res.classes, "open:<=95%")
 		if !isMax {
